@@ -96,7 +96,7 @@ func (c *simConn) Read(p []byte) (int, error) {
 	if s.passThrough(t) {
 		return 0, c.endErr()
 	}
-	r := &envReq{op: "read", conn: c, buf: p}
+	r := &envReq{op: "read", conn: c, buf: p, parkAt: time.Now()}
 	t.env = r
 	s.park(t, "conn.Read", kindEnv)
 	if s.passThrough(t) && r.err == nil && r.n == 0 {
